@@ -444,6 +444,8 @@ static void copy_lvalue_range (svalue_t * from) {
           {
             char *tmp, *dstr = owner->u.string;
 
+            if (size - ind2 + ind1 + fsize > CONFIG_INT (__MAX_STRING_LENGTH__))
+              error ("*String too long (MaxStringLength is %d).", CONFIG_INT (__MAX_STRING_LENGTH__));
             owner->u.string = tmp = new_string (size - ind2 + ind1 + fsize, "copy_lvalue_range");
             if (ind1 >= 1)
               {
@@ -574,6 +576,8 @@ static void assign_lvalue_range (svalue_t * from) {
           {
             char *tmp, *dstr = owner->u.string;
 
+            if (size - ind2 + ind1 + fsize > CONFIG_INT (__MAX_STRING_LENGTH__))
+              error ("*String too long (MaxStringLength is %d).", CONFIG_INT (__MAX_STRING_LENGTH__));
             owner->u.string = tmp =
               new_string (size - ind2 + ind1 + fsize, "assign_lvalue_range");
             if (ind1 >= 1)
